@@ -6,6 +6,10 @@ global size_of usize == 8;
 pub assume_specification<T: Clone + core::marker::Destruct> [<[T]>::clone_from_slice] (dst: &mut [T], src: &[T])
    requires old(dst)@.len() == src@.len() ensures final(dst)@ == src@;
 pub assume_specification<T: Clone> [<[T]>::to_vec] (s: &[T]) -> (r: Vec<T>) ensures r@ == s@;
+/// std: a Vec's allocation is at most isize::MAX bytes and a VCell occupies more than one byte, so the stack never has more than
+/// isize::MAX / 2 slots (it can always double once more, and slot indices fit an i64 with room for an offset)
+#[verifier::external_body]
+pub proof fn axiom_stack_len(s: Stack) ensures s.cells().len() * 2 <= isize::MAX {}
 impl Stack {
     /// the stack pointer addresses an existing slot
     pub open spec fn wf(&self) -> bool { self.sp_spec() < self.cells().len() && self.cells().len() <= usize::MAX }
@@ -51,7 +55,8 @@ UNITS = [{
         'impl Stack::get_sp': {'props': ['C04', 'C06'], 'ensures': [(['C04'], 'r == self.sp_spec()')]},
         'impl Stack::get_offset': {
             'props': ['C04', 'C06'],
-            'requires': ['self.sp_spec() <= i64::MAX / 2', 'i64::MIN / 2 <= offset <= i64::MAX / 2'],
+            'requires': ['self.wf()', 'i64::MIN / 2 <= offset <= i64::MAX / 2'],
+            'body_start': 'proof { axiom_stack_len(*self); }',
             'ensures': [(['C04'], '0 <= self.sp_spec() + offset < self.cells().len() ==> (r matches Ok(c) && *c == self.cells()[self.sp_spec() + offset])')],
         },
         'impl Stack::get_mut': {
@@ -62,7 +67,8 @@ UNITS = [{
         },
         'impl Stack::get_offset_mut': {
             'props': ['C04', 'C06'],
-            'requires': ['old(self).sp_spec() <= i64::MAX / 2', 'i64::MIN / 2 <= offset <= i64::MAX / 2'],
+            'requires': ['old(self).wf()', 'i64::MIN / 2 <= offset <= i64::MAX / 2'],
+            'body_start': 'proof { axiom_stack_len(*old(self)); }',
             'ensures': [(['C04'], '''0 <= old(self).sp_spec() + offset < old(self).cells().len() ==> (r matches Ok(c) && *c == old(self).cells()[old(self).sp_spec() + offset]
                             && final(self).cells() == old(self).cells().update(old(self).sp_spec() + offset, *final(c)) && final(self).sp_spec() == old(self).sp_spec())''')],
         },
@@ -81,7 +87,8 @@ UNITS = [{
         },
         'impl Stack::push': {
             'props': S5 + ['C06'],
-            'requires': ['old(self).wf()', 'old(self).sp_spec() + 1 >= old(self).cells().len() ==> old(self).can_grow()'],
+            'requires': ['old(self).wf()'],
+            'body_start': 'proof { axiom_stack_len(*old(self)); }',
             'ensures': [
                 (S5, 'final(self).wf() && final(self).sp_spec() == old(self).sp_spec() + 1 && final(self).cells().len() >= old(self).cells().len()'),
                 (S5, 'final(self).cells().subrange(0, old(self).sp_spec() + 1) == old(self).live()'),
